@@ -728,4 +728,40 @@ example :
   | 1 => decide
   | n + 2 => exact ⟨rfl, rfl⟩
 
+/-! ### a Remove while a transaction is open -/
+
+/-- Memory store: Begin, any interleaving of Puts and Removes, Commit equals the Removes (in order) applied
+    to the committed trie followed by the transaction of the Puts — `Remove` acts on the committed packets
+    also while a transaction is open, the transaction's Puts appear at Commit.  Hence such a history is the
+    `SOp` history `removes ++ [tx puts]` and `mem_store_exact`, `newest_version_selected_mem_history`,
+    `removed_not_served_history` apply to it: a packet removed inside the transaction (and not Put by it)
+    is not served afterwards. -/
+theorem remove_inside_transaction (root : MNode) (items : List TxItem) :
+    memStx root items =
+      memTx ((txRemoves items).foldl (fun r nb => memRemove r nb.1 nb.2) root) (txPuts items) := by
+  have key : ∀ (items : List TxItem) (r t : MNode),
+      items.foldl txStep (r, t) =
+      ((txRemoves items).foldl (fun r nb => memRemove r nb.1 nb.2) r, (txPuts items).foldl memPut t) := by
+    intro items
+    induction items with
+    | nil => intro r t; rfl
+    | cons it rest ih =>
+      intro r t
+      cases it with
+      | put p => simp only [List.foldl_cons, txStep, ih, txRemoves, txPuts, List.filterMap_cons]
+      | remove n b => simp only [List.foldl_cons, txStep, ih, txRemoves, txPuts, List.filterMap_cons]
+  simp only [memStx, memTx, key]
+
+example : memGet (memStx exMem [.put ⟨[⟨8, [9]⟩], 1, exPkt 9⟩, .remove [⟨8, [1]⟩] true]) [⟨8, [1]⟩] true = none ∧
+    memGet (memStx exMem [.put ⟨[⟨8, [9]⟩], 1, exPkt 9⟩, .remove [⟨8, [1]⟩] true]) [⟨8, [9]⟩] false = some (exPkt 9) := by
+  rw [remove_inside_transaction]
+  constructor
+  · simp only [txRemoves, txPuts, List.filterMap_cons, List.filterMap_nil, List.foldl_cons, List.foldl_nil]
+    have := (removed_not_served_mem exMem [⟨8, [1]⟩]).1 [] true
+    simp only [List.append_nil] at this
+    simp [memTx, memGet, memRemove, exMem, memPut, MNode.insert, MNode.empty, MKids.lookup, MKids.push, MKids.set, MNode.remove,
+      MKids.isEmpty, MKids.erase, MNode.merge, MKids.mergeInto, MNode.find, MNode.kids, MNode.wire, MNode.findNewest, MKids.newest, exPkt]
+  · simp [txRemoves, txPuts, memTx, memGet, memRemove, exMem, memPut, MNode.insert, MNode.empty, MKids.lookup, MKids.push, MKids.set, MNode.remove,
+      MKids.isEmpty, MKids.erase, MNode.merge, MKids.mergeInto, MNode.find, MNode.kids, MNode.wire, exPkt]
+
 end Ndn.C15
